@@ -256,6 +256,46 @@ def _short(o):
     return "returns"
 
 
+def run_lexer(ctx, res):
+    """lexer part: no panic (incl. debug assertions, u32/usize arithmetic, slicing) and every advance_token consumes
+    at least one char (termination), on one token step from an arbitrary string and on whole strings via LexedStr::new"""
+    from . import lexcheck
+    from .h_c14 import native_partition_check
+    NT = int(os.environ.get("VERIF_C01_NT", 3 if ctx.quick() else 6))
+    MW = int(os.environ.get("VERIF_C01_MW", 2 if ctx.quick() else 3))
+    f1 = lexcheck.run_tokens(ctx, res, NT)
+    f2 = lexcheck.run_whole(ctx, res, MW)
+    res.bounds["lexer_chars_per_token_step"] = NT
+    res.bounds["lexer_chars_whole_string"] = MW
+    res.functions_encoded += ["oq3_lexer::Cursor::advance_token and all scanners", "oq3_lexer::tokenize", "oq3_parser::LexedStr::new"]
+    allf = {}
+    for k, v in f1.items():
+        allf[k] = v
+    for (site, kid), v in f2.items():
+        allf[site] = v
+    for site, info in sorted(allf.items()):
+        if info["outcome"] == "unsupported":
+            res.inconclusive.append(f"lexer: unsupported ({info['count']} paths): {site}")
+            continue
+        if info["outcome"] not in ("panic", "stuck") and "consumed no character" not in site and "stops before the end" not in site:
+            continue      # structural obligations belong to C14 / C11
+        rep = None
+        for text in info["examples"]:
+            o1 = native.run_one("parse " + native.hexs(text), "dev")
+            o2 = native.run_one("parse " + native.hexs(text), "release")
+            o3 = native.run_one("parse_check_lex " + native.hexs(text), "dev")
+            if native.failed(o1) or native.failed(o2) or native.failed(o3):
+                rep = (text, [_short(o1), _short(o2), _short(o3)]); break
+        if rep is None:
+            res.inconclusive.append(f"lexer counterexample does not reproduce natively ({info['count']} paths): {site} e.g. {info['examples'][0]!r}")
+            continue
+        what = {"site": site, "paths": info["count"], "input": rep[0], "native(dev,release,check_lex)": str(rep[1])}
+        rp = os.path.join(ctx.replay_dir, "lexer_" + hashlib.sha1(site.encode()).hexdigest()[:10] + ".json")
+        with open(rp, "w") as f:
+            json.dump({"property": ctx.pid, "kind": "parse_text", "line": "parse " + native.hexs(rep[0]), "source_text": rep[0], "what": what}, f, indent=1)
+        res.violations.append({"what": json.dumps(what), "replay": rp})
+
+
 def run(ctx):
     res = Result()
     N = 2 if ctx.quick() else 3
@@ -263,6 +303,7 @@ def run(ctx):
     N = int(os.environ.get("VERIF_C01_N", N))
     NC = int(os.environ.get("VERIF_C01_NC", NC))
     run_parser(ctx, res, N, NC, POFF=() if ctx.quick() else (62, 63))
+    run_lexer(ctx, res)
     res.exhaustive = not res.inconclusive
     res.stubs += ["Vec/slice/Option/Result/iterators/Cell/mem::replace (vf/models.py)", "format!/fmt::Arguments opaque",
                   "ra_ap_limit::Limit::check", "drop_bomb::DropBomb (panics on drop unless defused)"]
